@@ -332,13 +332,18 @@ def run(ctx, case):
         if st == "ok" and not reloaded and k + 1 >= reload_at > 0:
             # the half-built system is saved and the history continues on the RELOADED copy (a loaded system is a
             # system like any other; nothing may stay shared with, or missing from, the object it was saved from)
-            with H.quiet(), H.tmpdir() as dd:
-                fn_ = os.path.join(dd, "mid.json")
-                s_, _r = H.call(E.save, fn_)
-                s2_, E2 = H.call(ns.System.from_file, fn_) if s_ == "ok" else ("raise", None)
+            if rng.random() < 0.5:
+                s2_, E2 = H.call(copy.deepcopy, E)  # ... or on a copy.deepcopy() of the half-built system
+                tag = "continued_on_deep_copy"
+            else:
+                with H.quiet(), H.tmpdir() as dd:
+                    fn_ = os.path.join(dd, "mid.json")
+                    s_, _r = H.call(E.save, fn_)
+                    s2_, E2 = H.call(ns.System.from_file, fn_) if s_ == "ok" else ("raise", None)
+                tag = "continued_on_reloaded_copy"
             if s2_ == "ok":
                 E, reloaded = E2, True
-                used.append("continued_on_reloaded_copy")
+                used.append(tag)
         if st == "ok" and k == audit_at:
             # the same judgement at an INTERMEDIATE state of the history (right after this call, before any further
             # call can refresh whatever the code keeps): the structure to compare with is read from the live registries
